@@ -106,7 +106,14 @@ def run_case(case, ctx):
     ctx.cls("algo=%s" % algo)
     ctx.cls("base=" + base)
     K = "C10/"
-    m = DecisionTreeLogisticRegression(estimator=est, **params)
+    if sub % 3 == 1:
+        # configured through set_params after construction (what clone + set_params / a grid search does)
+        m = DecisionTreeLogisticRegression(estimator=est, max_depth=params["max_depth"] + 9, min_samples_leaf=3,
+                                           min_samples_split=7, gamma=2.5, p1p2=0.11)
+        m.set_params(**params)
+        cfg["configured_with"] = "set_params"
+    else:
+        m = DecisionTreeLogisticRegression(estimator=est, **params)
     w = rng.rand(len(X)) + 0.5 if weighted else None
     Xin = pandas.DataFrame(X, columns=["f%d" % i for i in range(X.shape[1])]) if frame else X
     yin = y
@@ -165,10 +172,15 @@ def run_case(case, ctx):
 
     # ---- behaviour on the training rows (exact ties live here) and on new rows
     for qname, Q in (("train", X), ("new", rng.randn(40, X.shape[1]) * 1.5)):
+        Qin = Q
+        if frame:
+            # the batch as a frame whose index is a permutation of the positions
+            Qin = pandas.DataFrame(Q, columns=["f%d" % i for i in range(Q.shape[1])],
+                                   index=numpy.random.RandomState(sub % 991 + len(Q)).permutation(len(Q)))
         try:
-            proba = numpy.asarray(m.predict_proba(Q), dtype=float)
-            pred = numpy.asarray(m.predict(Q))
-            path = m.decision_path(Q)
+            proba = numpy.asarray(m.predict_proba(Qin), dtype=float)
+            pred = numpy.asarray(m.predict(Qin))
+            path = m.decision_path(Qin)
             path = numpy.asarray(path.todense())
         except Exception as e:
             ctx.violation(K + "predict/raised/%s" % type(e).__name__, "%s on %s rows: %s" % (
